@@ -1490,8 +1490,21 @@ func NormCell(v ssa.Value) ssa.Value {
 			v = sameBlock.Val
 			continue
 		}
-		if len(reaching) == 1 && reaching[0].Parent() == u.Parent() && InstrDominates(reaching[0], u) {
-			v = reaching[0].Val
+		// a store that is always overwritten by a later store before the load does not reach it
+		var live []*ssa.Store
+		for _, a := range reaching {
+			killed := false
+			for _, b := range reaching {
+				if a != b && a.Parent() == u.Parent() && b.Parent() == u.Parent() && InstrDominates(a, b) && InstrDominates(b, u) {
+					killed = true
+				}
+			}
+			if !killed {
+				live = append(live, a)
+			}
+		}
+		if len(live) == 1 && live[0].Parent() == u.Parent() && InstrDominates(live[0], u) {
+			v = live[0].Val
 			continue
 		}
 		return al
@@ -2015,8 +2028,8 @@ func LoopBlocks(hdr *ssa.BasicBlock) map[*ssa.BasicBlock]bool {
 func IterationPathsAvoiding(hdr, avoid *ssa.BasicBlock) (paths [][]Cond, exits int) {
 	in := LoopBlocks(hdr)
 	onPath := map[*ssa.BasicBlock]bool{}
-	var walk func(b *ssa.BasicBlock, acc []Cond)
-	walk = func(b *ssa.BasicBlock, acc []Cond) {
+	var walk func(b, prev *ssa.BasicBlock, acc []Cond)
+	walk = func(b, prev *ssa.BasicBlock, acc []Cond) {
 		if len(paths) > 64 {
 			return
 		}
@@ -2025,13 +2038,41 @@ func IterationPathsAvoiding(hdr, avoid *ssa.BasicBlock) (paths [][]Cond, exits i
 		for _, s := range b.Succs {
 			next := acc
 			if own, ok := EdgeOwnCond(b, s); ok {
-				next = append(append([]Cond{}, acc...), normalizeAll([]Cond{own}, 0)...)
+				// a condition that is a phi of this very block is decided by the predecessor the
+				// path came from: substitute that edge's value (and drop the edge if it contradicts)
+				own = stripBool(own)
+				feasible := true
+				if phi, isPhi := own.V.(*ssa.Phi); isPhi && phi.Block() == b && prev != nil {
+					for i, p := range b.Preds {
+						if p != prev {
+							continue
+						}
+						e := phi.Edges[i]
+						if k, isK := boolConst(e); isK {
+							if k != own.Truth {
+								feasible = false
+							}
+							own = Cond{}
+						} else {
+							own = Cond{e, own.Truth, own.If}
+						}
+						break
+					}
+				}
+				if !feasible {
+					continue
+				}
+				if own.V != nil {
+					next = append(append([]Cond{}, acc...), normalizeAll([]Cond{own}, 0)...)
+				}
 			}
 			switch {
 			case s == avoid:
 				continue
 			case s == hdr:
-				paths = append(paths, next)
+				if !Contradictory(next) {
+					paths = append(paths, next)
+				}
 			case !in[s]:
 				if b != hdr {
 					// ignore edges into blocks that only panic
@@ -2045,11 +2086,11 @@ func IterationPathsAvoiding(hdr, avoid *ssa.BasicBlock) (paths [][]Cond, exits i
 			case onPath[s]:
 				continue
 			default:
-				walk(s, next)
+				walk(s, b, next)
 			}
 		}
 	}
-	walk(hdr, nil)
+	walk(hdr, nil, nil)
 	return
 }
 
@@ -2172,6 +2213,20 @@ func SameValue(a, b ssa.Value) bool {
 			return false
 		default:
 			return false
+		}
+	}
+	return false
+}
+
+
+// Contradictory reports whether conds contains an outcome and its opposite for
+// the same condition value: such a path cannot be executed.
+func Contradictory(conds []Cond) bool {
+	for i, a := range conds {
+		for _, b := range conds[i+1:] {
+			if a.V == b.V && a.Truth != b.Truth {
+				return true
+			}
 		}
 	}
 	return false
